@@ -832,6 +832,126 @@ def corr_reactions(ck, rng):
     return ok and not failing
 
 
+TOP_EXTRA = """Definition mc_unpack_len (d : list Z) : pyres (mol * Z) := match mc_unpack d with Ok (g, _, sz) => Ok (g, sz) | Err e => Err e end.
+Definition mc_unpack_mol (d : list Z) : pyres mol := match mc_unpack d with Ok (g, _, _) => Ok g | Err e => Err e end.
+Definition rxn_mc (d : list Z) := rxn_unpack_with mc_unpack_len d.
+Definition top_mc (d : list Z) := top_unpack (fun d => Ok d) mc_unpack_mol rxn_mc false d.
+Definition top_is_mol (d : list Z) (g : mol) : bool := match top_mc d with Ok (inl g') => mol_eqb g' g | _ => false end.
+Definition roles_eqb (x y : list mol * list mol * list mol) : bool :=
+  list_eqb mol_eqb (fst (fst x)) (fst (fst y)) && list_eqb mol_eqb (snd (fst x)) (snd (fst y)) && list_eqb mol_eqb (snd x) (snd y).
+Definition top_is_rxn (d : list Z) (rs ags ps : list mol) : bool :=
+  match gen_unpach (fun d => Ok d) mc_unpack_mol (gen_rxn_unpack (fun d => Ok d) mc_unpack_len false) false d with Ok (inr r) => roles_eqb r (rs, ags, ps) | _ => false end.
+Definition top_is_err (d : list Z) (e : pyexn) : bool := match top_mc d with Err e' => pyexn_eqb e e' | _ => false end.
+Definition rxn_is_err (d : list Z) (e : pyexn) : bool := match rxn_mc d with Err e' => pyexn_eqb e e' | _ => false end.
+Definition mol_is_err (d : list Z) (e : pyexn) : bool := match mc_unpack_mol d with Err e' => pyexn_eqb e e' | _ => false end.
+"""
+
+
+def corr_top(ck, mols, rng):
+    """the PUBLIC DECODE ENTRY POINTS end to end (model: PackTop over PackMol): chython.unpack (generic dispatcher),
+    MoleculeContainer.unpack and ReactionContainer.unpack on version 2 and version 0 molecule packs, on reaction packs of
+    either / mixed versions, and on malformed input (first byte 0..255, truncations, a molecule header other than 0 / 2
+    inside a reaction pack, role counts larger / smaller than the molecules present); the returned objects are compared as
+    whole Graph.mol values, the raised exception by class.  On reaction packs the bodies translated from the sources
+    (gen_unpach over gen_rxn_unpack) are what is evaluated (equal to the hand model for all inputs by theorem)"""
+    import chython
+    from chython import smiles, MoleculeContainer, ReactionContainer
+    cases, meta = [], []
+    zl = lambda d: lst(list(d), zraw)
+
+    def outcome(func, data):
+        try:
+            return 'ok', func(data, compressed=False)
+        except (ValueError, IndexError, KeyError) as e:
+            return 'err', ('KeyError' if isinstance(e, KeyError) else type(e).__name__)
+        except Exception as e:
+            return 'undefined', type(e).__name__
+
+    def roles_terms(r):
+        return ' '.join(lst([coqmol.mol_term(x) for x in side]) for side in (r.reactants, r.reagents, r.products))
+
+    def add_top(data, tag):
+        """one byte string through the three real entry points; expectation taken from the real result"""
+        kind, res = outcome(chython.unpack, data)
+        ck.case(('top', tag, bytes(data)[:48], len(data)), nontrivial=len(data) > 4)
+        if kind == 'undefined':
+            ck.count(f'top:undefined({res})')
+            return
+        if kind == 'err':
+            ck.count(f'top:{res}')
+            cases.append(f'top_is_err {zl(data)} {res}')
+        elif isinstance(res, MoleculeContainer):
+            ck.count('top:molecule')
+            cases.append(f'top_is_mol {zl(data)} {coqmol.mol_term(res)}')
+        else:
+            ck.count('top:reaction')
+            cases.append(f'top_is_rxn {zl(data)} {roles_terms(res)}')
+        meta.append(('top', tag))
+        k2, r2 = outcome(ReactionContainer.unpack, data)
+        if k2 == 'err':
+            cases.append(f'rxn_is_err {zl(data)} {r2}')
+            meta.append(('rxn-err', tag))
+        k3, r3 = outcome(MoleculeContainer.unpack, data)
+        if k3 == 'err':
+            cases.append(f'mol_is_err {zl(data)} {r3}')
+            meta.append(('mol-err', tag))
+
+    picked = [(k, m) for k, m in mols if k in ('seed', 'numbers', 'chain', 'ct-generated', 'ct-shared', 'v0-groups') and len(m) <= 40]
+    if ck.tier == 'quick':
+        picked = picked[::max(1, len(picked) // 36)]
+    v0 = {}
+    for kind, m in picked:
+        data = bytes(m.pack(compressed=False))
+        add_top(data, ('v2', kind, mstr(m)))
+        d0 = layout_oracle(m, version=0, terminals_from_dict=True)
+        if d0 is not None:
+            v0[id(m)] = d0
+            add_top(d0, ('v0', kind, mstr(m)))
+    # reaction packs: version 2, version 0 and MIXED molecule packs, every pattern of empty sides
+    pool = [m for k, m in picked if len(m) <= 12 and id(m) in v0][:25] or [smiles('CCO')]
+    for (r, a, p) in [(1, 0, 0), (0, 1, 0), (0, 0, 1), (1, 1, 1), (2, 0, 1), (0, 2, 2), (1, 2, 0), (3, 1, 2)][ck.seed % 2::2 if ck.tier == 'quick' else 1] * (1 if ck.tier == 'quick' else 4):
+        ms = [rng.choice(pool) for _ in range(r + a + p)]
+        for mode in ('v2', 'v0', 'mixed'):
+            packs = [bytes(x.pack(compressed=False)) if mode == 'v2' or (mode == 'mixed' and rng.random() < .5) else v0[id(x)] for x in ms]
+            data = bytes([1, r, a, p]) + b''.join(packs)
+            add_top(data, ('rxn', mode, r, a, p))
+            if mode == 'mixed':
+                # malformed variants of the same pack
+                add_top(data + bytes([rng.randrange(256) for _ in range(5)]), ('rxn+suffix', r, a, p))
+                add_top(bytes([1, r, a, p + 1]) + data[4:], ('rxn-count+1', r, a, p))           # walks past the end: IndexError
+                if r + a + p > 1:
+                    add_top(bytes([1, max(r - 1, 0), a, p if r else max(p - 1, 0)]) + data[4:], ('rxn-count-1', r, a, p))
+                bad = bytearray(data)
+                off = 4 + (len(packs[0]) if len(packs) > 1 and rng.random() < .5 else 0)
+                bad[off] = rng.choice([1, 3, 4, 5, 255])                                      # molecule header inside the reaction
+                add_top(bytes(bad), ('rxn-bad-mol-header', r, a, p, bad[off]))
+                add_top(data[:rng.randrange(1, len(data))], ('rxn-truncated', r, a, p))
+    # first byte sweep on a molecule pack and on a reaction pack; truncations of a molecule pack; the empty string
+    base = bytes(smiles('C/C=C/C').pack(compressed=False))
+    rbase = bytes(smiles('CC=O>>CCO').pack(compressed=False))
+    for h in sorted(set(range(0, 8)) | {rng.randrange(8, 256) for _ in range(4)} | {255}):
+        add_top(bytes([h]) + base[1:], ('first-byte-mol', h))
+        add_top(bytes([h]) + rbase[1:], ('first-byte-rxn', h))
+    for c in sorted({0, 1, 3, 4, 12, 13, len(base) - 5, len(base) - 1}):
+        add_top(base[:c], ('mol-truncated', c))
+    for c in sorted({1, 2, 3, 4, 5, len(rbase) - 1}):
+        add_top(rbase[:c], ('rxn-truncated', c))
+    ck.sample({'model_call': cases[0][:300], 'of': meta[0]})
+    ok, failing, log = coqcases.run_cases('c10t', 'Graph StereoRegistry Pack PackSpec PackApi PackStereo PackStereoSpec PackMol PackTop', cases,
+                                          extra='From Gen Require Import PackTopGen.\n' + TOP_EXTRA, shard=100)
+    ck.oblige('correspondence: chython.unpack (dispatcher) / MoleculeContainer.unpack / ReactionContainer.unpack end to end on version 2, version 0, mixed reaction and malformed '
+              'packs == Coq model PackTop over PackMol and the bodies translated from the sources (objects compared whole, exceptions by class)', ok and not failing, 'correspondence',
+              log or str([meta[i] for i in failing[:5]]))
+    ck.extra['correspondence_cases'] = ck.extra.get('correspondence_cases', 0) + len(cases)
+    if not ok or failing:
+        # directed search with the property level oracles on what was fed, before falling back to `unchecked`
+        for kind, m in picked[:40]:
+            check_molecule(ck, kind, m, tag='-directed')
+        search_rxn_versions(ck, rng, [m for k, m in picked if len(m) <= 12][:9])
+        ck.unchecked('correspondence PackTop model vs the public decode entry points', log[-1500:], [repr(meta[i]) for i in failing[:20]])
+    return ok and not failing
+
+
 def dyadic(x):
     """exact (neg, M, E) with x = +-M * 2^E"""
     import math
@@ -1002,6 +1122,48 @@ def layout_oracle(m, version=2, terminals_from_dict=False):
     return bytes(int(allb[i:i + 8], 2) for i in range(0, len(allb), 8))
 
 
+def check_entry_points(ck, kind, m, d0, tag=''):
+    """every public way to write a molecule pack x every public way to read one back (the class methods, their `pach`
+    spellings, bytes(m), and the generic dispatcher chython.unpack / chython.unpach / chython.containers.unpack that
+    must recognise the kind of pack by itself), for the version 2 pack and the independently written version 0 pack,
+    compressed and not: each must give the original molecule (reference: the molecule that was never packed)"""
+    import zlib
+    import chython
+    import chython.containers as cc
+    from chython import MoleculeContainer
+    v2 = bytes(m.pack(compressed=False))
+    writers = [('pack(compressed=False)', v2, False), ('pach()', m.pach(), True), ('bytes(m)', bytes(m), True),
+               ('pach(compressed=False)', m.pach(compressed=False), False)]
+    for wname, data, compressed in writers:
+        if (zlib.decompress(data) if compressed else bytes(data)) != v2:
+            ck.counterexample(f'writer-differs:{wname}:{kind}:{mstr(m)}', f'{wname} is not the pack written by pack()', {'smiles': mstr(m)}, list(data[:16]), list(v2[:16]),
+                              'all writer spellings give one pack', replay_py=REPLAY_PRE + f'm=smiles({mstr(m)!r}); print(bytes(m)==m.pack(), m.pach()==m.pack())')
+            return False
+    packs = [('version 2', v2)]
+    if d0 is not None:
+        packs.append(('version 0 (independent writer)', d0))
+    readers = [('MoleculeContainer.unpach', MoleculeContainer.unpach), ('chython.unpack', chython.unpack), ('chython.unpach', chython.unpach),
+               ('chython.containers.unpack', cc.unpack)]
+    want = observe(m)
+    for pname, raw in packs:
+        for compressed in (False, True):
+            data = zlib.compress(raw, 9) if compressed else raw
+            for rname, reader in readers:
+                ck.case(('entry' + tag, kind, mstr(m), tuple(m._atoms), pname, compressed, rname))
+                rp = REPLAY_PRE + f'import chython, zlib; d=bytes({list(raw)!r}); print({rname}({"zlib.compress(d)" if compressed else "d"}, compressed={compressed}))'
+                try:
+                    u = reader(data, compressed=compressed)
+                except Exception as e:
+                    ck.counterexample(f'entry-raises:{rname}:{pname}:{kind}:{mstr(m)}', f'{rname} raises {type(e).__name__} on a {pname} molecule pack (compressed={compressed})',
+                                      {'smiles': mstr(m), 'numbers': list(m._atoms), 'pack': list(raw)}, repr(e), mstr(m), 'the molecule that was packed', replay_py=rp)
+                    return False
+                if not isinstance(u, MoleculeContainer) or observe(u) != want:
+                    ck.counterexample(f'entry-differs:{rname}:{pname}:{kind}:{mstr(m)}', f'{rname} of a {pname} molecule pack (compressed={compressed}) is not the molecule that was packed',
+                                      {'smiles': mstr(m), 'numbers': list(m._atoms), 'pack': list(raw)}, f'{type(u).__name__} {u}', mstr(m), 'the molecule that was packed', replay_py=rp)
+                    return False
+    return True
+
+
 def check_molecule(ck, kind, m, tag=''):
     """property-level oracle on the real API for one molecule: round trip, published layout, pack_len. Returns True
     when the molecule passes"""
@@ -1055,6 +1217,8 @@ def check_molecule(ck, kind, m, tag=''):
             ck.counterexample(f'v0-decode-raises:{kind}:{mstr(m)}', f'decoding a version 0 pack raises {type(e).__name__}', {'smiles': mstr(m), 'pack': list(d0)}, repr(e), 'molecule',
                               'independent version 0 writer + API decode')
             ok = False
+    if ok and not check_entry_points(ck, kind, m, d0, tag):
+        ok = False
     want = layout_oracle(m)
     if want is not None:
         got = m.pack(compressed=False)
@@ -1073,6 +1237,52 @@ def check_molecule(ck, kind, m, tag=''):
                               replay_py=REPLAY_PRE + f'print(list(smiles({mstr(m)!r}).pack(compressed=False)))')
             ok = False
     return ok
+
+
+def search_rxn_versions(ck, rng, v0pool):
+    """reaction packs assembled from VERSION 0 molecule packs by the independent writer, and from a MIXTURE of version 0 and
+    version 2 packs: every molecule must come back in its role through every reader (a wrong consumed length of one
+    molecule shifts all the following ones), pack_len must give the atom counts"""
+    from chython import ReactionContainer
+    for (r, a, p) in [(1, 1, 1), (1, 0, 1), (0, 2, 0), (2, 1, 0), (1, 2, 2), (0, 0, 3), (3, 0, 0), (2, 2, 2)]:
+        for rep in range(3):
+            ms = [rng.choice(v0pool) for _ in range(r + a + p)]
+            mixed = rep == 2
+            data = bytes([1, r, a, p]) + b''.join(bytes(x.pack(compressed=False)) if mixed and rng.random() < .5 else layout_oracle(x, version=0) for x in ms)
+            key = f'{r}{a}{p}:' + '.'.join(str(x.bonds_count) for x in ms)
+            ck.case(('rxn-v0-rt', r, a, p, tuple(mstr(x) for x in ms)))
+            inp = {'roles': [r, a, p], 'molecules': [mstr(x) for x in ms], 'bonds': [x.bonds_count for x in ms], 'pack': list(data)}
+            rp = REPLAY_PRE + f'd=bytes({list(data)!r}); print(ReactionContainer.unpack(d, compressed=False), ReactionContainer.pack_len(d, compressed=False))'
+            try:
+                u = ReactionContainer.unpack(data, compressed=False)
+                roles = [[observe(x) for x in side] for side in (u.reactants, u.reagents, u.products)]
+                want = [[observe(x) for x in ms[:r]], [observe(x) for x in ms[r:r + a]], [observe(x) for x in ms[r + a:]]]
+                if roles != want:
+                    ck.counterexample(f'rxn-v0-roundtrip:{key}', 'a reaction pack of version 0 molecule packs (independent writer) decodes to other molecules / roles', inp,
+                                      str(u), [mstr(x) for x in ms], 'independent version 0 writer + API decode', replay_py=rp)
+                for rname, reader in rxn_readers():
+                    ut = reader(data, compressed=False)
+                    if not isinstance(ut, ReactionContainer) or [[observe(x) for x in side] for side in (ut.reactants, ut.reagents, ut.products)] != want:
+                        ck.counterexample(f'rxn-v0-entry:{rname}:{key}', f'{rname} of a reaction pack of version 0 molecule packs is not the reaction', inp,
+                                          f'{type(ut).__name__} {ut}', [mstr(x) for x in ms], 'independent version 0 writer + API decode', replay_py=rp)
+                # pack_len reads the version byte of the FIRST molecule only (one writer = one version per reaction pack): mixed
+                # packs, which no writer produces, are outside this oracle
+                ln = None if mixed else ReactionContainer.pack_len(data, compressed=False)
+                if ln is not None and [list(x) for x in ln] != [[len(x) for x in ms[:r]], [len(x) for x in ms[r:r + a]], [len(x) for x in ms[r + a:]]]:
+                    ck.counterexample(f'rxn-v0-pack_len:{key}', 'pack_len of a reaction pack of version 0 molecule packs is wrong', inp, ln,
+                                      [[len(x) for x in ms[:r]], [len(x) for x in ms[r:r + a]], [len(x) for x in ms[r + a:]]], 'atom counts', replay_py=rp)
+            except Exception as e:
+                ck.counterexample(f'rxn-v0-raises:{key}', f'decoding a reaction pack of version 0 molecule packs raises {type(e).__name__}', inp, repr(e), [mstr(x) for x in ms],
+                                  'independent version 0 writer + API decode', replay_py=rp)
+
+
+def rxn_readers():
+    """every public way to read a reaction pack: the class method, its `pach` spelling and the generic dispatcher"""
+    import chython
+    import chython.containers as cc
+    from chython import ReactionContainer
+    return [('ReactionContainer.unpach', ReactionContainer.unpach), ('chython.unpack', chython.unpack), ('chython.unpach', chython.unpach),
+            ('chython.containers.unpack', cc.unpack)]
 
 
 def search(ck, mols, rng, n_ref):
@@ -1118,31 +1328,8 @@ def search(ck, mols, rng, n_ref):
             ck.counterexample(f'xy-value:{x!r}', 'coordinate not preserved to half precision', {'x': x}, [u._atoms[1].x, u._atoms[2].y], 'half(x)',
                               'independent half-float truncation',
                               replay_py=REPLAY_PRE + f'm=smiles("CC"); m._atoms[1]._xy.x={x!r}; print(MoleculeContainer.unpack(m.pack())._atoms[1].x)')
-    # reaction packs assembled from VERSION 0 molecule packs by the independent writer: every molecule must come back in its
-    # role (a wrong consumed length of one molecule shifts all the following ones), pack_len must give the atom counts
     v0pool = [smiles(x) for x in ('C', 'CCCCCC', 'C/C=C/CCC', 'CCCCCCCCCCC', 'C/C=C/CCCCCCCC', 'CCO', 'O', 'CC(C)(C)c1ccccc1', 'C[C@H](N)O')]
-    for (r, a, p) in [(1, 1, 1), (1, 0, 1), (0, 2, 0), (2, 1, 0), (1, 2, 2), (0, 0, 3), (3, 0, 0), (2, 2, 2)]:
-        for rep in range(3):
-            ms = [rng.choice(v0pool) for _ in range(r + a + p)]
-            data = bytes([1, r, a, p]) + b''.join(layout_oracle(x, version=0) for x in ms)
-            key = f'{r}{a}{p}:' + '.'.join(str(x.bonds_count) for x in ms)
-            ck.case(('rxn-v0-rt', r, a, p, tuple(mstr(x) for x in ms)))
-            inp = {'roles': [r, a, p], 'molecules': [mstr(x) for x in ms], 'bonds': [x.bonds_count for x in ms], 'pack': list(data)}
-            rp = REPLAY_PRE + f'd=bytes({list(data)!r}); print(ReactionContainer.unpack(d, compressed=False), ReactionContainer.pack_len(d, compressed=False))'
-            try:
-                u = ReactionContainer.unpack(data, compressed=False)
-                roles = [[observe(x) for x in side] for side in (u.reactants, u.reagents, u.products)]
-                want = [[observe(x) for x in ms[:r]], [observe(x) for x in ms[r:r + a]], [observe(x) for x in ms[r + a:]]]
-                if roles != want:
-                    ck.counterexample(f'rxn-v0-roundtrip:{key}', 'a reaction pack of version 0 molecule packs (independent writer) decodes to other molecules / roles', inp,
-                                      str(u), [mstr(x) for x in ms], 'independent version 0 writer + API decode', replay_py=rp)
-                ln = ReactionContainer.pack_len(data, compressed=False)
-                if [list(x) for x in ln] != [[len(x) for x in ms[:r]], [len(x) for x in ms[r:r + a]], [len(x) for x in ms[r + a:]]]:
-                    ck.counterexample(f'rxn-v0-pack_len:{key}', 'pack_len of a reaction pack of version 0 molecule packs is wrong', inp, ln,
-                                      [[len(x) for x in ms[:r]], [len(x) for x in ms[r:r + a]], [len(x) for x in ms[r + a:]]], 'atom counts', replay_py=rp)
-            except Exception as e:
-                ck.counterexample(f'rxn-v0-raises:{key}', f'decoding a reaction pack of version 0 molecule packs raises {type(e).__name__}', inp, repr(e), [mstr(x) for x in ms],
-                                  'independent version 0 writer + API decode', replay_py=rp)
+    search_rxn_versions(ck, rng, v0pool)
     # reactions with every combination of empty sides
     pool = [smiles(s) for s in ('C', 'CCO', 'C=O', '[Na+].[Cl-]', 'c1ccccc1', 'C[C@H](N)O')]
     for (r, a, p) in itertools.product(range(3), repeat=3):
@@ -1166,8 +1353,17 @@ def search(ck, mols, rng, n_ref):
                 if [list(x) for x in ln] != [[len(x) for x in side] for side in (rx.reactants, rx.reagents, rx.products)]:
                     ck.counterexample(f'rxn-pack_len:{key}', f'reaction pack_len wrong (role sizes {r},{a},{p})', {'reaction': str(rx)}, ln,
                                       [[len(x) for x in side] for side in (rx.reactants, rx.reagents, rx.products)], 'atom counts')
-                if str(top_unpack(data)) != str(rx):
-                    ck.counterexample(f'rxn-top-unpack:{key}', 'chython.unpack of a reaction pack differs', {'reaction': str(rx)}, str(top_unpack(data)), str(rx), 'API')
+                for compressed in (True, False):
+                    dd = rx.pack(compressed=compressed)
+                    for wname, dw in (('pach', rx.pach(compressed=compressed)),) + ((('bytes(r)', bytes(rx)),) if compressed else ()):
+                        if bytes(dw) != bytes(dd):
+                            ck.counterexample(f'rxn-writer-differs:{wname}:{key}', f'{wname} is not the pack written by pack()', {'reaction': str(rx)}, list(dw[:16]), list(dd[:16]), 'API')
+                    for rname, reader in rxn_readers():
+                        ut = reader(dd, compressed=compressed)
+                        if not isinstance(ut, ReactionContainer) or [[observe(x) for x in side] for side in (ut.reactants, ut.reagents, ut.products)] != want:
+                            ck.counterexample(f'rxn-top-unpack:{rname}:{key}', f'{rname} of a reaction pack (compressed={compressed}) is not the reaction', {'reaction': str(rx)},
+                                              f'{type(ut).__name__} {ut}', str(rx), 'API round trip',
+                                              replay_py=REPLAY_PRE + f'import chython; r=smiles({str(rx)!r}); print({rname}(r.pack(compressed={compressed}), compressed={compressed}))')
         except Exception as e:
             ck.counterexample(f'rxn-raises:{key}', f'reaction pack/unpack/pack_len raises {type(e).__name__} (role sizes {r},{a},{p})', {'reaction': str(rx)},
                               repr(e), 'round trip', 'API round trip')
@@ -1212,12 +1408,15 @@ def run(ck):
                         'hypothesis pack_ok, raw unpack result and pack_len compared with / evaluated in the Coq model by vm_compute; malformed packs: truncations at every block '
                         'border, single corrupted bytes (decodes / IndexError / KeyError must agree; uninitialised reads and invalid element numbers are counted as undefined), every '
                         'bit of the header cis/trans count, molecules outside the limits (ValueError); reactions for all role-size triples 0..2 plus larger; half floats on exact '
-                        'dyadics; non-trivial = more than one atom. '
-                        'search: API round trip compressed/uncompressed, pack bytes against an independent re-implementation of the published layout (bit string from the docstring), '
+                        'dyadics; public decode entry points end to end (chython.unpack dispatcher, MoleculeContainer.unpack, ReactionContainer.unpack) on version 2 / version 0 / mixed '
+                        'reaction packs and malformed input (first byte sweep, truncations, bad molecule header inside a reaction, wrong role counts) against PackTop over PackMol and the '
+                        'bodies translated from the sources; non-trivial = more than one atom. '
+                        'search: API round trip compressed/uncompressed, every public writer (pack, pach, bytes) x every public reader (unpack, unpach, chython.unpack, chython.unpach, '
+                        'chython.containers.unpack) on version 2 and independently written version 0 packs against the never-packed object, pack bytes against an independent re-implementation of the published layout (bit string from the docstring), '
                         'half-float coordinates, a 4095-atom pack, reference packs vs lipophilicity.csv through RDKit; after a correspondence failure the same oracles run on the '
                         'disagreeing molecules and renumbered variants')
     t_start = __import__('time').time()
-    proved = common.standard_proof_steps(ck, translators=['elements', 'packspec'])
+    proved = common.standard_proof_steps(ck, translators=['elements', 'packspec', 'packtop'])
     rng = random.Random(ck.seed)
     try:
         import pyx2py
@@ -1244,6 +1443,8 @@ def run(ck):
     timing['corr_malformed'] = round(time.time() - t0, 1); t0 = time.time()
     corr_reactions(ck, rng)
     timing['corr_reactions'] = round(time.time() - t0, 1); t0 = time.time()
+    corr_top(ck, mols, random.Random(ck.seed + 7))
+    timing['corr_top'] = round(time.time() - t0, 1); t0 = time.time()
     corr_f16(ck, mods, rng)
     timing['corr_f16'] = round(time.time() - t0, 1); t0 = time.time()
     search(ck, mols, rng, 200 if ck.tier == 'quick' else 4200)
